@@ -304,7 +304,7 @@ def c16_5(ctx, ss):
     for d in nd:
         v = flow.expand(d.value)
         if txt(v).startswith("sum("):
-            conds = [(txt(e), pol) for kind, e, pol in guards.path_conditions(ff.node, d.stmt) if kind == "if"]
+            conds = [(txt(e), pol) for kind, e, pol in guards.path_conditions(ff.node, d.stmt, skip_raise_guards=True) if kind == "if"]
             g0 = v.args[0].generators[0] if isinstance(v.args[0], ast.GeneratorExp) else None
             rows_src = txt(flow.expand(enclosing(ff, prints[0], (ast.For,))[0].iter))
             ok = conds == [("normalize", True)] and g0 is not None and not g0.ifs and txt(g0.iter) in (rows_src, rows_src.replace("sorted(", "", 1)) or (
@@ -481,7 +481,7 @@ def c16_8(ctx, ss):
         if texts == ["PDG2EvtGenNameMap[mother]", "mother"]:
             # the mapped alternative must be the one under pdg_name
             d = [dd for dd in flow.defs if dd.name == "mother" and dd.kind == "assign"]
-            conds = [(txt(e), pol) for kind, e, pol in guards.path_conditions(ff.node, d[0].stmt) if kind == "if"] if d else []
+            conds = [(txt(e), pol) for kind, e, pol in guards.path_conditions(ff.node, d[0].stmt, skip_raise_guards=True) if kind == "if"] if d else []
             if conds == [("pdg_name", True)]:
                 ctx.holds("C16.8", k, where(ff, calls[0]), "pdg_name ⇒ the mother is looked up as PDG2EvtGenNameMap[mother]", 2)
             else:
